@@ -285,7 +285,8 @@ func (p *PacketOut) UnmarshalBinary(data []byte) error {
 
 	n += 6 // for pad
 
-	for n < (n + p.ActionsLen) {
+	end := n + p.ActionsLen
+	for n < end {
 		a, err := DecodeAction(data[n:])
 		if err != nil {
 			return err
@@ -294,7 +295,9 @@ func (p *PacketOut) UnmarshalBinary(data []byte) error {
 		n += a.Len()
 	}
 
-	err = p.Data.UnmarshalBinary(data[n:])
+	payload := new(util.Buffer)
+	err = payload.UnmarshalBinary(data[n:])
+	p.Data = payload
 	return err
 }
 
